@@ -1,0 +1,37 @@
+// Verification-only (compiled only with `--cfg hotstuff_verif`): read-only snapshot of the
+// core's private state, published after every iteration of the main loop.
+use super::Core;
+use crate::consensus::Round;
+use crypto::{Digest, PublicKey};
+
+#[derive(Clone, Debug, PartialEq, Eq, Hash, PartialOrd, Ord)]
+pub struct CoreSnapshot {
+    pub round: Round,
+    pub last_voted_round: Round,
+    pub last_committed_round: Round,
+    pub high_qc_hash: Digest,
+    pub high_qc_round: Round,
+    pub high_qc_signers: Vec<PublicKey>,
+    /// (round, vote digest, weight, signers in arrival order)
+    pub votes: Vec<(Round, Digest, u32, Vec<PublicKey>)>,
+    /// (round, weight, (signer, high_qc round) in arrival order)
+    pub timeouts: Vec<(Round, u32, Vec<(PublicKey, Round)>)>,
+}
+
+pub(super) fn publish(core: &Core) {
+    let (votes, timeouts) = core.aggregator.verif_summary();
+    let snapshot = CoreSnapshot {
+        round: core.round,
+        last_voted_round: core.last_voted_round,
+        last_committed_round: core.last_committed_round,
+        high_qc_hash: core.high_qc.hash.clone(),
+        high_qc_round: core.high_qc.round,
+        high_qc_signers: core.high_qc.votes.iter().map(|(k, _)| *k).collect(),
+        votes,
+        timeouts,
+    };
+    network::simnet::board_put(
+        format!("core:{}", core.name.encode_base64()),
+        Box::new(snapshot),
+    );
+}
